@@ -14,7 +14,8 @@ TRUSTED = ["mido writes the messages it is given (the file is read back with an 
            "pandas sort_values on several keys is stable"]
 ASSUMPTIONS = ["at least one sounding note, pitches in the MIDI range, velocities 1..127 (the statement's guard)", "durations > 0"]
 
-INSTR_POOL = ["piano", "violin", "flute", "cello", "trumpet", "piano", "violin", "church_organ", "unknown_instrument"]
+INSTR_POOL = ["piano", "violin", "flute", "cello", "trumpet", "piano", "violin", "church_organ", "unknown_instrument",
+              "steel_drums", "taiko_drum", "synth_drum"]        # melodic General MIDI programs whose NAME mentions drums: not drum parts
 SIGS = [(4, 4), (3, 4), (6, 8), (2, 2), (5, 4)]
 
 
@@ -118,8 +119,10 @@ class MidiFile_(Stream):
                 except Exception:
                     pass
                 sc = rand_midi_score(rng, offgrid=(i % 4 == 3), many=(i % 12 == 5), too_many=(i % 60 == 17))
-            yield {"score": sc, "tempo": rng.choice([120, 60, 100, 40, 200, 77]),
-                   "sig": list(rng.choice(SIGS))}
+            case = {"score": sc, "tempo": rng.choice([120, 60, 100, 40, 200, 77]), "sig": list(rng.choice(SIGS))}
+            if len(sc) == 1 and rng.random() < 0.5:
+                case["via_chord"] = True                  # the second public entry point: Chord.to_midi(path, tempo=..., time_signature=...)
+            yield case
 
     def impl(self, case):
         def f():
@@ -127,7 +130,7 @@ class MidiFile_(Stream):
             fd, path = tempfile.mkstemp(suffix=".mid", dir=os.path.join(core.BUILD))
             os.close(fd)
             try:
-                sc.to_midi(path, tempo=case["tempo"], time_signature=tuple(case["sig"]))
+                (sc.chords[0] if case.get("via_chord") else sc).to_midi(path, tempo=case["tempo"], time_signature=tuple(case["sig"]))
                 return read_back(path)
             finally:
                 os.remove(path)
@@ -236,7 +239,7 @@ class MidiFile_(Stream):
         """General MIDI level 1 program numbers (0-based) for the instrument names the generator uses"""
         return {"piano": 0, "violin": 40, "flute": 73, "cello": 42, "trumpet": 56, "church_organ": 19, "clarinet": 71, "oboe": 68, "harp": 46,
                 "trombone": 57, "tuba": 58, "viola": 41, "contrabass": 43, "french_horn": 60, "bassoon": 70, "piccolo": 72,
-                "acoustic_guitar": 24, "vibraphone": 11, "marimba": 12, "harpsichord": 6}
+                "acoustic_guitar": 24, "vibraphone": 11, "marimba": 12, "harpsichord": 6, "steel_drums": 114, "taiko_drum": 116, "synth_drum": 118}
 
     def nontrivial(self, case, r):
         return len(self.names(case)) > 1
@@ -245,11 +248,12 @@ class MidiFile_(Stream):
         names = self.names(case)
         bases = [n.split("__")[0] for n in names]
         return ["shared-program" if len(set(bases)) < len(bases) else "distinct-programs", "drums" if any(b.startswith("drums") for b in bases) else "no-drums",
-                "exc" if mlang.is_exc(r) else "ok"]
+                "exc" if mlang.is_exc(r) else "ok", "Chord.to_midi" if case.get("via_chord") else "Score.to_midi"]
 
     def shrink(self, case):
         for s in sg.shrink_score(case["score"]):
-            yield dict(case, score=s)
+            if len(s) == 1 or not case.get("via_chord"):
+                yield dict(case, score=s)
 
     def model_answer(self, case, r):
         tpq = sg.score_tpq(case["score"])
